@@ -356,13 +356,18 @@ Fixpoint grun (s : gst) (tr : list (Z * event)) : option gst :=
 Definition ev0 (k ord off a b : Z) : event := mkEv k ord 0 off 0 a b 1.
 Definition evg (k a : Z) : event := mkEv k 0 1 0 0 a 0 1.
 (* candidate latent events at a program point.  tstep branches on the DBF_CANCELED / DBF_WAITED / DBF_PERFORM bits of
-   a flags value, on boost_th being zero or not, and on the zero / non-zero result of the group wait only, so one
-   representative per class suffices *)
-Definition flag_reads : list event :=
-  map (fun f => ev0 DV_LOAD MO_PLAIN OFF_FLAGS f f) [0; CANCELED; PERFORM; Z.lor CANCELED PERFORM; WAITED].
-Definition latents (self : Z) (p : pc) : list event :=
+   a flags value (DBF_WAITED first: crash), on boost_th being zero or not, and on the zero / non-zero result of the
+   group wait only, so one representative per class suffices *)
+Definition flag_values (pf : bool) : list Z :=
+  if pf then [PERFORM; Z.lor CANCELED PERFORM; Z.lor WAITED PERFORM] else [0; CANCELED; WAITED].
+Definition flag_reads (pf : bool) : list event := map (fun f => ev0 DV_LOAD MO_PLAIN OFF_FLAGS f f) (flag_values pf).
+(* pf: the object is a DBF_PERFORM record (known to the harness).  The DBF_PERFORM bit of the flags never changes
+   (Block_proofs.InvA: Z.testbit (flags s) 3 = negb (hasgrp s)), so the candidate values of a latent flags read are
+   restricted to the object's kind; otherwise a thread that skips the completion of a cancelled invocation could be
+   explained away as "the object was a DBF_PERFORM record" *)
+Definition latents (self : Z) (pf : bool) (p : pc) : list event :=
   match p with
-  | PIdle | PInvRead _ | PTestRead => flag_reads
+  | PIdle | PInvRead _ | PTestRead => flag_reads pf
   | PSetThread _ => [ev0 DV_STORE MO_PLAIN OFF_THREAD 0 self]
   | PSubmit _ => [ev0 DVQ_RETAIN2 0 0 0 0]
   | PSubmitRel _ | PRel _ | PWaitWake _ _ => [ev0 DVQ_RELEASE2 0 0 0 0]
@@ -376,27 +381,27 @@ Definition is_latent (e : event) : bool :=
 Definition succs (self : Z) (p : pc) (es : list event) : list pc :=
   flat_map (fun e => match tstep self p e with Some p' => [p'] | None => [] end) es.
 (* program points reachable by at most n latent steps *)
-Fixpoint closure (self : Z) (n : nat) (ps : list pc) : list pc :=
+Fixpoint closure (self : Z) (pf : bool) (n : nat) (ps : list pc) : list pc :=
   match n with
   | O => ps
-  | S n' => ps ++ closure self n' (flat_map (fun p => succs self p (latents self p)) ps)
+  | S n' => ps ++ closure self pf n' (flat_map (fun p => succs self p (latents self pf p)) ps)
   end.
 Definition LAT_DEPTH : nat := 4.
-Definition vstep (self : Z) (ps : list pc) (e : event) : list pc :=
-  flat_map (fun p => succs self p [e]) (closure self LAT_DEPTH ps).
-Fixpoint vrun (self : Z) (ps : list pc) (tr : list event) (i : Z) : list pc * Z :=
+Definition vstep (self : Z) (pf : bool) (ps : list pc) (e : event) : list pc :=
+  flat_map (fun p => succs self p [e]) (closure self pf LAT_DEPTH ps).
+Fixpoint vrun (self : Z) (pf : bool) (ps : list pc) (tr : list event) (i : Z) : list pc * Z :=
   match tr with
   | [] => (ps, -1)
-  | e :: tr' => match vstep self ps e with
+  | e :: tr' => match vstep self pf ps e with
                 | [] => (ps, i)
-                | ps' => vrun self ps' tr' (i + 1)
+                | ps' => vrun self pf ps' tr' (i + 1)
                 end
   end.
 Definition pc_idle (p : pc) : bool := match p with PIdle => true | _ => false end.
 (* for the correspondence driver: run one recorded per-thread trace (visible events only); result = (index of the
    first rejected event or -1, 1 if the thread can have ended outside any modelled function) *)
-Definition conform (self : Z) (tr : list event) : Z * Z :=
-  let '(ps, i) := vrun self [PIdle] tr 0 in (i, b2z (existsb pc_idle (closure self LAT_DEPTH ps))).
+Definition conform (self : Z) (pf : bool) (tr : list event) : Z * Z :=
+  let '(ps, i) := vrun self pf [PIdle] tr 0 in (i, b2z (existsb pc_idle (closure self pf LAT_DEPTH ps))).
 
 (* branch identifiers for the coverage report of the correspondence: which model branch a (pc, event) pair takes *)
 Definition pc_tag (p : pc) : Z :=
@@ -414,17 +419,17 @@ Definition tr_code (p p' : pc) : Z := pc_tag p * 100 + pc_tag p'.
 Definition succs_h (self : Z) (ph : pc * list Z) (es : list event) : list (pc * list Z) :=
   flat_map (fun e => match tstep self (fst ph) e with
                      | Some p' => [(p', tr_code (fst ph) p' :: snd ph)] | None => [] end) es.
-Fixpoint closure_h (self : Z) (n : nat) (phs : list (pc * list Z)) : list (pc * list Z) :=
+Fixpoint closure_h (self : Z) (pf : bool) (n : nat) (phs : list (pc * list Z)) : list (pc * list Z) :=
   match n with
   | O => phs
-  | S n' => phs ++ closure_h self n' (flat_map (fun ph => succs_h self ph (latents self (fst ph))) phs)
+  | S n' => phs ++ closure_h self pf n' (flat_map (fun ph => succs_h self ph (latents self pf (fst ph))) phs)
   end.
-Definition vstep_h (self : Z) (phs : list (pc * list Z)) (e : event) : list (pc * list Z) :=
-  flat_map (fun ph => succs_h self ph [e]) (closure_h self LAT_DEPTH phs).
-Fixpoint vrun_h (self : Z) (phs : list (pc * list Z)) (tr : list event) : list (pc * list Z) :=
-  match tr with [] => phs | e :: tr' => vrun_h self (vstep_h self phs e) tr' end.
-Definition conform_cov (self : Z) (tr : list event) : list Z :=
-  match filter (fun ph => pc_idle (fst ph)) (closure_h self LAT_DEPTH (vrun_h self [(PIdle, [])] tr)) with
+Definition vstep_h (self : Z) (pf : bool) (phs : list (pc * list Z)) (e : event) : list (pc * list Z) :=
+  flat_map (fun ph => succs_h self ph [e]) (closure_h self pf LAT_DEPTH phs).
+Fixpoint vrun_h (self : Z) (pf : bool) (phs : list (pc * list Z)) (tr : list event) : list (pc * list Z) :=
+  match tr with [] => phs | e :: tr' => vrun_h self pf (vstep_h self pf phs e) tr' end.
+Definition conform_cov (self : Z) (pf : bool) (tr : list event) : list Z :=
+  match filter (fun ph => pc_idle (fst ph)) (closure_h self pf LAT_DEPTH (vrun_h self pf [(PIdle, [])] tr)) with
   | ph :: _ => snd ph
   | [] => []
   end.
